@@ -1,3 +1,4 @@
+#![cfg_attr(target_pointer_width = "32", allow(arithmetic_overflow))] // 2^32-sized probes exist only in the 64-bit stages
 //! C12 — fork gives both branches the identical stream under every pull interleaving.
 //!
 //! Model: positions a, b; pulled = max(a, b). The source yields frame i on pull i, so the value a
